@@ -162,7 +162,11 @@ def close_spec(sc, nbody, line, judge_ans):
     # 6. bounded time: once CLOSING with the governing timeout > 0, CLOSED after the long wait (op index nbody)
     first_g = next((k for k, (_, st) in enumerate(per[:nbody]) if st == "G"), None)
     if first_g is not None and per[nbody][1] != "X":
-        we_initiated = not ops[first_g].startswith("feed")
+        # closing begins during a feed either because the peer's close frame arrived (peer initiated) or because the
+        # fed octets made us fail the connection with a close frame (failByDrop off): then WE initiated, and it is
+        # closeHandshakeTimeout that bounds the wait (a check that ignored this raised a false alarm at seed 3:
+        # cht=0 configured, violation answered with close 1002, no timer expected)
+        we_initiated = (not ops[first_g].startswith("feed")) or fed_close(judge_ans) is None
         # we initiated: closeHandshakeTimeout bounds the wait for the reply, then (client) serverConnectionDropTimeout
         # bounds the wait for the TCP drop; peer initiated (client only - a server drops at once): serverConnectionDropTimeout
         governing = [cfg.get("cht", SEC)] if we_initiated else []
